@@ -431,9 +431,9 @@ impl Ctx {
                     }
                     let n = spec.get("cases").and_then(|x| x.as_u64()).unwrap_or(0) as u32;
                     let tidx = spec.get("tidx").and_then(|x| x.as_u64()).unwrap_or(0);
-                    if tidx == 0 {
-                        self.run_saved_replays::<T, F>(stream, &f);
-                    }
+                    // every worker tries the saved replays; they only run where the configuration matches
+                    let _ = tidx;
+                    self.run_saved_replays::<T, F>(stream, &f);
                     if n > 0 && !self.stop.load(Ordering::SeqCst) {
                         self.run_one_runner(stream, n, tidx, strat(), &f);
                     }
@@ -476,7 +476,7 @@ impl Ctx {
             cases,
             failure_persistence: None,
             rng_seed: RngSeed::Fixed(mix_seed(self.seed, &self.id, stream, tidx)),
-            max_shrink_iters: 4000,
+            max_shrink_iters: if std::env::var_os("XV_NO_SHRINK").is_some() { 0 } else { 4000 },
             max_shrink_time: 120_000,
             max_global_rejects: 1 << 20,
             verbose: 0,
@@ -484,6 +484,7 @@ impl Ctx {
         };
         let mut runner = TestRunner::new(cfg);
         let failed = AtomicBool::new(false);
+        let first_sig: Mutex<Option<String>> = Mutex::new(None);
         let local = Mutex::new(Stats::default());
         let res = runner.run(&strat, |case| {
             if self.stop.load(Ordering::SeqCst) && !failed.load(Ordering::SeqCst) {
@@ -494,6 +495,18 @@ impl Ctx {
             let mut c = Case { nontrivial: false, labels: vec![], note: None };
             let r = run_guarded(|| f(&case, &mut c));
             let r = match r {
+                Err(msg) if sig_of(&msg) == "infra" => {
+                    // harness / environment problem (temp dir, store set-up …): never a violation
+                    if counting {
+                        self.inconclusive(format!("stream {stream}: {}", truncate(&msg, 400)));
+                    }
+                    Ok(())
+                },
+                Err(msg) if !counting && first_sig.lock().unwrap().as_deref() != Some(sig_of(&msg).as_str()) => {
+                    // shrinking: only candidates that fail the same way count as failing ("minimise your
+                    // failure, not any failure")
+                    Ok(())
+                },
                 Err(msg) => {
                     let sig = sig_of(&msg);
                     if self.is_known(&sig).is_some() {
@@ -540,7 +553,9 @@ impl Ctx {
             match r {
                 Ok(()) => Ok(()),
                 Err(msg) => {
-                    failed.store(true, Ordering::SeqCst);
+                    if !failed.swap(true, Ordering::SeqCst) {
+                        *first_sig.lock().unwrap() = Some(sig_of(&msg));
+                    }
                     self.stop.store(true, Ordering::SeqCst);
                     Err(TestCaseError::fail(msg))
                 },
@@ -710,6 +725,10 @@ pub fn truncate(s: &str, n: usize) -> String {
     }
 }
 
+/// last panic message seen on any thread (panics on runtime worker threads are reported to the
+/// caller as join errors without their message)
+pub static LAST_PANIC_GLOBAL: Mutex<Option<String>> = Mutex::new(None);
+
 thread_local! {
     pub static LAST_PANIC: std::cell::RefCell<Option<String>> = const { std::cell::RefCell::new(None) };
 }
@@ -725,6 +744,9 @@ pub fn install_quiet_panic_hook() {
             "<non-string panic>".to_string()
         };
         LAST_PANIC.with(|p| *p.borrow_mut() = Some(format!("{msg} @ {loc}")));
+        if let Ok(mut g) = LAST_PANIC_GLOBAL.try_lock() {
+            *g = Some(format!("{msg} @ {loc}"));
+        }
         if std::env::var_os("XV_VERBOSE_PANIC").is_some() {
             eprintln!("panic: {msg} @ {loc}");
         }
@@ -738,8 +760,11 @@ pub fn panic_signature(msg: &str) -> String {
         None => (msg, ""),
     };
     let file = loc.rsplit('/').next().unwrap_or("").split(':').next().unwrap_or("");
-    let head: String = m.chars().filter(|c| c.is_ascii_alphanumeric() || *c == ' ' || *c == '_').take(40).collect();
-    format!("panic:{}:{}", file, head.trim().replace(' ', "_"))
+    // first line only, letters only (values and line numbers vary between cases and edits)
+    let first = m.lines().next().unwrap_or("");
+    let head: String = first.chars().map(|c| if c.is_ascii_alphabetic() { c } else { ' ' }).collect();
+    let words: Vec<&str> = head.split_whitespace().take(6).collect();
+    format!("panic:{}:{}", file, words.join("_"))
 }
 
 /// Runs the oracle closure, turning a panic into an `Err` that carries message and location.
@@ -831,6 +856,7 @@ impl Ctx {
                         .arg("--out")
                         .arg(&out_path)
                         .env("XV_JOURNAL", &journal_path)
+                        .env("XV_WORK", wd.path().join(format!("w{i}")))
                         .env("RUST_BACKTRACE", "0")
                         .stdin(Stdio::null())
                         .stdout(Stdio::null())
